@@ -14,6 +14,7 @@ import shutil
 import subprocess
 import sys
 import sysconfig
+import time
 
 VERIF = os.path.dirname(os.path.dirname(os.path.abspath(__file__)))
 REPO = os.environ.get("VERIF_REPO", "/repo")
@@ -104,8 +105,12 @@ def _build_ext_locked(variant, out_dir):
     os.unlink(o)
   # prune older builds of this variant (disk)
   for old in glob.glob(os.path.join(BUILD, f"ext-{variant}-*")):
-    if old != out_dir and not old.startswith(tmp):
-      shutil.rmtree(old, ignore_errors=True)
+    try:
+      stale = time.time() - os.path.getmtime(old) > 6 * 3600
+    except OSError:
+      stale = False
+    if old != out_dir and not old.startswith(tmp) and stale:
+      shutil.rmtree(old, ignore_errors=True)   # concurrent checks may still use recent ones
   try:
     os.rename(tmp, out_dir)
   except OSError:
